@@ -24,4 +24,4 @@ def check(repo, rep, tier):
     rc.rule_protocol_invariants(cm, rep, 'C06.P', semantic_ok=ok)
     rc.rule_precedence(cm, rep, 'C06.G1')
     rc.rule_operator_mapping(cm, rep, 'C06.G2')
-    rc.rule_compiler_bounded(cm, rep, 'C06.R2', depth=3, scope=3 if tier == 'thorough' else 2)
+    rc.rule_compiler_bounded(cm, rep, 'C06.R2', depth=3, scope=3 if tier == 'thorough' else 2, combs=4)
